@@ -15,7 +15,7 @@ Section Top.
     exists c, default_val_lit_n parse_f64 S F t l = LOk (v, c).
   Proof.
     intros Hv Hp. destruct (ev_sv parse_f64 S Hcf F) as [HC HD].
-    exact (top_good parse_f64 S _ _ _ _ HC HD l t v Hv Hp).
+    exact (top_good parse_f64 S _ _ (evi parse_f64 S F) _ _ HC HD l t v Hv Hp).
   Qed.
 
   Theorem literal_meaning t l :
@@ -122,7 +122,9 @@ Qed.
 
 (* ---------- the shapes repaired in pilota-build: the former panic witnesses now lower to the IDL value ---------- *)
 Definition pf0 (s : list byte) : option Z :=
-  if bytes_eqb s [x32; x2e; x35] then Some 4612811918334230528 else None.      (* "2.5" *)
+  if bytes_eqb s [x32; x2e; x35] then Some 4612811918334230528                 (* "2.5" *)
+  else if bytes_eqb s [x2d; x31; x2e; x35] then Some 13832806255468478464        (* "-1.5" *)
+  else None.
 
 (* F-14g: a map literal inside a list literal, inside a map literal, behind a typedef, as a struct-literal member *)
 Definition W_nested_map : lschema :=
@@ -193,23 +195,122 @@ Example other_arms_repaired :
   pclass_top (mkLS [] [(RFastStr, LString [x78])]) (LConst 0) (item_cty RString) = None.
 Proof. vm_compute. repeat split; reflexivity. Qed.
 
-(* ---------- witnesses: what still panics on a well-typed literal, one per remaining class ---------- *)
-(* no arm: any literal at a `pilota.rust_wrapper_arc` type; a string at `binary` with rust_type = "vec" *)
-Example no_arm_refuted :
-  well_typed_lit pf0 (mkLS [] []) (erase (RArc RString)) (LString [x61]) = true /\
-  default_val_lit pf0 (mkLS [] []) (RArc RString) (LString [x61]) = LPanic PUnexpectedLiteral /\
-  pclass_top (mkLS [] []) (LString [x61]) (item_cty (RArc RString)) = Some PCNoArm /\
-  well_typed_lit pf0 (mkLS [] []) (erase RBytesVec) (LString [x61]) = true /\
-  default_val_lit pf0 (mkLS [] []) RBytesVec (LString [x61]) = LPanic PUnexpectedLiteral.
+(* ---------- three repairs that are proposed (fam/gen/patches) and may or may not be in the tree: the regenerated tables say
+   which form the generator has; each statement holds in BOTH forms (if repaired: the IDL value; else: the panic) ---------- *)
+(* arc-field-default: a default on a `pilota.rust_wrapper_arc` field *)
+Definition W_arc : lschema :=
+  mkLS [IStruct [mkLF [x6e; x6f; x74; x65] 1 Optional RFastStr None; mkLF [x6e] 2 Required RI32 None] false false]
+       [(RFastStr, LString [x6b])].
+Example arc_default_cases :
+  well_typed_lit pf0 W_arc (erase (RArc (RPath 0))) (LMap [(LString [x6e], LInt 1)]) = true /\
+  pclass_top W_arc (LMap [(LString [x6e], LInt 1)]) (item_cty (RArc (RPath 0))) = Some PCNoArm /\
+  if arc_ok then
+    default_val_lit pf0 W_arc (RArc (RPath 0)) (LMap [(LString [x6e], LInt 1)]) = LOk (GStruct [(2, GI32 1)] [], false) /\
+    default_val_lit pf0 W_arc (RArc RString) (LString [x61]) = LOk (GBytes [x61], false) /\
+    default_val_lit pf0 W_arc (RArc RString) (LConst 0) = LOk (GBytes [x6b], false) /\
+    default_val_lit pf0 W_arc (RVec (RArc (RPath 0))) (LList [LMap [(LString [x6e], LInt 4)]]) = LOk (GList [GStruct [(2, GI32 4)] []], false) /\
+    default_val_lit pf0 W_arc (RMap RFastStr (RArc (RPath 0))) (LMap [(LString [x61], LMap [(LString [x6e], LInt 5)])])
+      = LOk (GMap [(GBytes [x61], GStruct [(2, GI32 5)] [])], false)
+  else
+    default_val_lit pf0 W_arc (RArc (RPath 0)) (LMap [(LString [x6e], LInt 1)]) = LPanic PUnexpectedLiteral /\
+    default_val_lit pf0 W_arc (RArc RString) (LString [x61]) = LPanic PUnexpectedLiteral /\
+    default_val_lit pf0 W_arc (RArc RString) (LConst 0) = LPanic PInvalidConvert.
 Proof. vm_compute. repeat split; reflexivity. Qed.
 
-(* path convert: a REFERENCE to a const of container type (its CodegenTy is LazyStaticRef / Array, never the field's);
-   a const of a typedef type used at the aliased type *)
+(* container-const-reference: a default (or an element of a container literal) that names a const of list / set / map type *)
+Definition W_const_ref : lschema :=
+  mkLS [INewType (RVec RI32)]
+       [(RVec RI32, LList [LInt 1; LInt 2]); (RSet RFastStr, LList [LString [x61]]); (RMap RFastStr RI32, LMap [(LString [x6b], LInt 1)])].
+Example container_const_reference_cases :
+  well_typed_lit pf0 W_const_ref (erase (RSet RFastStr)) (LConst 1) = true /\
+  pclass_top W_const_ref (LConst 1) (item_cty (RSet RFastStr)) = Some PCPathConvert /\
+  if const_inline_present then
+    default_val_lit pf0 W_const_ref (RVec RI32) (LConst 0) = LOk (GList [GI32 1; GI32 2], false) /\
+    default_val_lit pf0 W_const_ref (RSet RFastStr) (LConst 1) = LOk (GSet [GBytes [x61]], false) /\
+    default_val_lit pf0 W_const_ref (RBTreeSet RFastStr) (LConst 1) = LOk (GSet [GBytes [x61]], false) /\
+    default_val_lit pf0 W_const_ref (RMap RFastStr RI32) (LConst 2) = LOk (GMap [(GBytes [x6b], GI32 1)], false) /\
+    default_val_lit pf0 W_const_ref (RPath 0) (LConst 0) = LOk (GList [GI32 1; GI32 2], false) /\
+    default_val_lit pf0 W_const_ref (RVec (RVec RI32)) (LList [LConst 0; LList []]) = LOk (GList [GList [GI32 1; GI32 2]; GList []], false)
+  else
+    default_val_lit pf0 W_const_ref (RVec RI32) (LConst 0) = LPanic PInvalidConvert /\
+    default_val_lit pf0 W_const_ref (RSet RFastStr) (LConst 1) = LPanic PInvalidConvert /\
+    default_val_lit pf0 W_const_ref (RMap RFastStr RI32) (LConst 2) = LPanic PInvalidConvert.
+Proof. vm_compute. repeat split; reflexivity. Qed.
+
+(* double-sign-run: the double constant `-+1.5` *)
+Example double_sign_run_cases :
+  well_typed_lit pf0 (mkLS [] []) TyDouble (LFloat [x2d; x2b; x31; x2e; x35]) = true /\
+  if double_sign_run_ok then
+    default_val_lit pf0 (mkLS [] []) RF64 (LFloat [x2d; x2b; x31; x2e; x35]) = LOk (GDouble 13832806255468478464, true) /\
+    default_val_lit pf0 (mkLS [] []) (RSet ROrderedF64) (LList [LFloat [x2d; x2b; x31; x2e; x35]]) = LOk (GSet [GDouble 13832806255468478464], false) /\
+    pclass_top (mkLS [] []) (LFloat [x2d; x2b; x31; x2e; x35]) (item_cty RF64) = None
+  else
+    default_val_lit pf0 (mkLS [] []) RF64 (LFloat [x2d; x2b; x31; x2e; x35]) = LPanic PParseFloat /\
+    pclass_top (mkLS [] []) (LFloat [x2d; x2b; x31; x2e; x35]) (item_cty RF64) = Some PCFloatSigns.
+Proof. vm_compute. repeat split; reflexivity. Qed.
+
+(* the two readings of each case, as implications (one of each pair is vacuous in a given tree) *)
+Lemma arc_field_default_refuted : arc_ok = false ->
+  well_typed_lit pf0 W_arc (erase (RArc (RPath 0))) (LMap [(LString [x6e], LInt 1)]) = true /\
+  default_val_lit pf0 W_arc (RArc (RPath 0)) (LMap [(LString [x6e], LInt 1)]) = LPanic PUnexpectedLiteral /\
+  default_val_lit pf0 W_arc (RArc RString) (LString [x61]) = LPanic PUnexpectedLiteral /\
+  default_val_lit pf0 W_arc (RArc RString) (LConst 0) = LPanic PInvalidConvert.
+Proof.
+  intros H. pose proof arc_default_cases as E. rewrite H in E. exact (conj (proj1 E) (proj2 (proj2 E))).
+Qed.
+
+Lemma arc_field_default_repaired : arc_ok = true ->
+  default_val_lit pf0 W_arc (RArc (RPath 0)) (LMap [(LString [x6e], LInt 1)]) = LOk (GStruct [(2, GI32 1)] [], false) /\
+  default_val_lit pf0 W_arc (RArc RString) (LString [x61]) = LOk (GBytes [x61], false) /\
+  default_val_lit pf0 W_arc (RArc RString) (LConst 0) = LOk (GBytes [x6b], false) /\
+  default_val_lit pf0 W_arc (RVec (RArc (RPath 0))) (LList [LMap [(LString [x6e], LInt 4)]]) = LOk (GList [GStruct [(2, GI32 4)] []], false) /\
+  default_val_lit pf0 W_arc (RMap RFastStr (RArc (RPath 0))) (LMap [(LString [x61], LMap [(LString [x6e], LInt 5)])])
+    = LOk (GMap [(GBytes [x61], GStruct [(2, GI32 5)] [])], false).
+Proof. intros H. pose proof arc_default_cases as E. rewrite H in E. exact (proj2 (proj2 E)). Qed.
+
+Lemma container_const_reference_refuted : const_inline_present = false ->
+  well_typed_lit pf0 W_const_ref (erase (RSet RFastStr)) (LConst 1) = true /\
+  default_val_lit pf0 W_const_ref (RVec RI32) (LConst 0) = LPanic PInvalidConvert /\
+  default_val_lit pf0 W_const_ref (RSet RFastStr) (LConst 1) = LPanic PInvalidConvert /\
+  default_val_lit pf0 W_const_ref (RMap RFastStr RI32) (LConst 2) = LPanic PInvalidConvert.
+Proof.
+  intros H. pose proof container_const_reference_cases as E. rewrite H in E. exact (conj (proj1 E) (proj2 (proj2 E))).
+Qed.
+
+Lemma container_const_reference_repaired : const_inline_present = true ->
+  default_val_lit pf0 W_const_ref (RVec RI32) (LConst 0) = LOk (GList [GI32 1; GI32 2], false) /\
+  default_val_lit pf0 W_const_ref (RSet RFastStr) (LConst 1) = LOk (GSet [GBytes [x61]], false) /\
+  default_val_lit pf0 W_const_ref (RBTreeSet RFastStr) (LConst 1) = LOk (GSet [GBytes [x61]], false) /\
+  default_val_lit pf0 W_const_ref (RMap RFastStr RI32) (LConst 2) = LOk (GMap [(GBytes [x6b], GI32 1)], false) /\
+  default_val_lit pf0 W_const_ref (RPath 0) (LConst 0) = LOk (GList [GI32 1; GI32 2], false) /\
+  default_val_lit pf0 W_const_ref (RVec (RVec RI32)) (LList [LConst 0; LList []]) = LOk (GList [GList [GI32 1; GI32 2]; GList []], false).
+Proof. intros H. pose proof container_const_reference_cases as E. rewrite H in E. exact (proj2 (proj2 E)). Qed.
+
+Lemma double_sign_run_refuted : double_sign_run_ok = false ->
+  well_typed_lit pf0 (mkLS [] []) TyDouble (LFloat [x2d; x2b; x31; x2e; x35]) = true /\
+  default_val_lit pf0 (mkLS [] []) RF64 (LFloat [x2d; x2b; x31; x2e; x35]) = LPanic PParseFloat /\
+  pclass_top (mkLS [] []) (LFloat [x2d; x2b; x31; x2e; x35]) (item_cty RF64) = Some PCFloatSigns.
+Proof. intros H. pose proof double_sign_run_cases as E. rewrite H in E. exact E. Qed.
+
+Lemma double_sign_run_repaired : double_sign_run_ok = true ->
+  default_val_lit pf0 (mkLS [] []) RF64 (LFloat [x2d; x2b; x31; x2e; x35]) = LOk (GDouble 13832806255468478464, true) /\
+  default_val_lit pf0 (mkLS [] []) (RSet ROrderedF64) (LList [LFloat [x2d; x2b; x31; x2e; x35]]) = LOk (GSet [GDouble 13832806255468478464], false) /\
+  pclass_top (mkLS [] []) (LFloat [x2d; x2b; x31; x2e; x35]) (item_cty RF64) = None.
+Proof. intros H. pose proof double_sign_run_cases as E. rewrite H in E. exact (proj2 E). Qed.
+
+(* ---------- witnesses: what panics on a well-typed literal whatever the form, one per remaining class ---------- *)
+(* no arm: a string at `binary` with rust_type = "vec" *)
+Example no_arm_refuted :
+  well_typed_lit pf0 (mkLS [] []) (erase RBytesVec) (LString [x61]) = true /\
+  default_val_lit pf0 (mkLS [] []) RBytesVec (LString [x61]) = LPanic PUnexpectedLiteral /\
+  pclass_top (mkLS [] []) (LString [x61]) (item_cty RBytesVec) = Some PCNoArm.
+Proof. vm_compute. repeat split; reflexivity. Qed.
+
+(* path convert: a const of a typedef type used at the aliased type *)
 Example path_convert_refuted :
-  well_typed_lit pf0 W_const_set (erase (RSet RI32)) (LConst 0) = true /\
-  default_val_lit pf0 W_const_set (RSet RI32) (LConst 0) = LPanic PInvalidConvert /\
-  pclass_top W_const_set (LConst 0) (item_cty (RSet RI32)) = Some PCPathConvert /\
-  default_val_lit pf0 (mkLS [INewType RI32] [(RPath 0, LInt 1)]) RI32 (LConst 0) = LPanic PInvalidConvert.
+  well_typed_lit pf0 (mkLS [INewType RI32] [(RPath 0, LInt 1)]) (erase RI32) (LConst 0) = true /\
+  default_val_lit pf0 (mkLS [INewType RI32] [(RPath 0, LInt 1)]) RI32 (LConst 0) = LPanic PInvalidConvert /\
+  pclass_top (mkLS [INewType RI32] [(RPath 0, LInt 1)]) (LConst 0) (item_cty RI32) = Some PCPathConvert.
 Proof. vm_compute. repeat split; reflexivity. Qed.
 
 (* nested map: what is left is a map literal where only lit_into_ty looks: a map KEY (no Rust map is hashable anyway) *)
